@@ -71,10 +71,12 @@ inductive CaseT where
   | script (c : Case)
   | tcp (n : Nat)
   | tcpReset (n : Nat)
+  | tcpReconnect (n : Nat)
 
 def caseOf? : Term → Option CaseT
   | .list [.atom "case-tcp", n] => (natLe? 64 n).map .tcp
   | .list [.atom "case-tcp-reset", n] => (natLe? 64 n).map .tcpReset
+  | .list [.atom "case-tcp-reconnect", n] => (natLe? 64 n).map .tcpReconnect
   | .list [.atom "case", .list (.atom "streams" :: ss), .list (.atom "steps" :: stT)] => do
       let ss ← ss.mapM streamOf?
       let st ← stT.mapM stepOf?
@@ -121,5 +123,6 @@ def outOf? : Term → Option (Out (List Snap))
 
 def tcpT (n : Nat) : Term := tag "tcp" (List.replicate n (sym "cleared"))
 def tcpResetT (n : Nat) : Term := tag "tcp-reset" (List.replicate n (sym "ok"))
+def tcpReconnectT (n : Nat) : Term := tag "tcp-reconnect" (List.replicate n (sym "ok"))
 
 end Rbgp.Rtr.Codec
